@@ -134,11 +134,24 @@ def unit_pair_cases(ctx: Ctx, self, other, op: int, req):
 def _qty_case(ctx, name, when, tcls, amnt_exact, unit_t, props=("C02", "C05")):
     h = ctx.pre
     ctx.axiom(q_round_facts(h, amnt_exact, unit_t))
+    has_q, qu = unit_quantum(h, unit_t)
+    ctx.axiom(z3.And(z3.Implies(
+        z3.And(qu != 0, grid_w(amnt_exact, qu)),
+        amnt_exact / qu == z3.ToReal(grid_k(amnt_exact, qu))),
+        S.rnd_int_fact(grid_k(amnt_exact, qu), S.DFLT_MODE)),
+        "A3: ground instances of lemmas field/cancel-common-factor "
+        "((k*q)/q == k) and round_rel/integers-fixed")
+
+    def kept(c, o):
+        return qty_result(o, lambda q, ph: z3.Implies(
+            z3.And(has_q, qu > 0, grid_w(amnt_exact, qu)),
+            amount(ph, q) == amnt_exact))
 
     def build(c):
         return new_qty(c, tcls, q_round(c.pre, amnt_exact, unit_t),
                        fresh_exact_tag(c), unit_t)
     return Case(name, when, ensures=[
+        ("a-multiple-of-the-quantum-is-not-rounded", kept),
         ("class", lambda c, o: qty_result(o, lambda q, ph: cls_of(ph, q) == tcls)),
         ("unit", lambda c, o: qty_result(o, lambda q, ph: unit_of(ph, q) == unit_t)),
         ("amount-rounded-once", lambda c, o: qty_result(
